@@ -36,7 +36,7 @@ REACH = [
 PLAN = {
     "quick": {"shards": 8, "cases": 30000, "timeout_s": 900, "min_evaluations": 200000,
               "min_counters": {"command_outputs": 50000, "json_documents": 50000, "yaml_documents": 50000, "searches_compared": 150000, "get_after_queries": 50000}},
-    "thorough": {"shards": 16, "cases": 70000, "timeout_s": 3300, "min_evaluations": 1000000,
+    "thorough": {"shards": 16, "cases": 400000, "timeout_s": 3300, "min_evaluations": 1000000,
                  "min_counters": {"command_outputs": 250000}},
 }
 SINGLE = ["no such file or directory", "not a directory", "command not found", "no module named", "no files found for"]
